@@ -46,7 +46,10 @@ struct L07 : Listener {
             else {
                 if (isP) { if (col[0].points().nbPoints() == 0) reasons.insert("invalid:nothing-supplied"); }
                 else {
-                    if (col[0].analogs().nbSubframes() != s.nSub) reasons.insert("invalid:subframe-count");
+                    // "differs from the data set": the reference is what the stored frames hold (the header is expected to say the same)
+                    size_t dataSub = s.nSub;
+                    for (size_t f2 = 0; f2 < in.o().data().nbFrames(); ++f2) { const auto &sf = in.o().data().frame(f2); if (sf.analogs().nbSubframes() != 0) { dataSub = sf.analogs().nbSubframes(); break; } }
+                    if (col[0].analogs().nbSubframes() != dataSub) reasons.insert("invalid:subframe-count");
                     else if (col[0].analogs().nbSubframes() == 0 || col[0].analogs().subframe(0).nbChannels() == 0) reasons.insert("invalid:nothing-supplied");
                 }
             }
@@ -93,6 +96,7 @@ CaseResult runC07(const Case &c, RunCtx &ctx) {
     CaseResult r;
     Interp in(ctx, "C07");
     in.allowUndeclaredFrames = true;
+    in.continueAfterConsistentDeviation = true;
     L07 L(r, ctx); in.L = &L;
     in.run(c);
     r.nontrivial = L.deviating > 0 || L.matchingOnData > 0;
